@@ -324,3 +324,64 @@ for _pv, _prev in (('fibre', obj('Fiber', params=obj('FiberParams', _loss_coef=v
              modifies=['node.delta_p', 'node.effective_gain', 'node.tilt_target', 'node.out_voa', 'node.in_voa', 'node._delta_p',
                        'node.target_pch_out_dbm', 'node.type_variety', 'node.params.*'],
              use_at_calls=False, max_paths=3000)
+
+# ---------------------------------------------------------------- multiband pre-selection: every band's candidates are rated against
+# that band's own targets (gain, power, tilt) and the library's extended-gain allowance - the real loop body with the rating
+# function opaque (it records what it was asked)
+from pyvc.vals import Builtin as _Builtin
+
+
+def _rec_filter(it, a, k):
+    g = it.p.live['equipment']['ghost_call']
+    for nm, v in zip(('uid', 'edfa_eqpt', 'power_target', 'gain_target', 'tilt_target', 'target_extended_gain'), a):
+        g[nm] = v
+    g.update(k)
+    return []
+
+
+OV_MB = {('gnpy.core.network', 'filter_edfa_list_based_on_targets'): lambda it: _Builtin('rated', _rec_filter),
+         ('gnpy.core.network', 'find_type_varieties'): lambda it: _Builtin('groups', lambda it2, a, k: [])}
+_MBLIB = dct_k({'group': obj('<ns>', multi_band=const(['amp_C', 'amp_L']), type_def=const('multi_band')),
+                'amp_C': obj('<ns>', f_min=real(), f_max=real(), type_variety=const('amp_C')),
+                'amp_L': obj('<ns>', f_min=real(), f_max=real(), type_variety=const('amp_L'))})
+contract('gnpy.core.network.preselect_multiband_amps', name='gnpy.core.network.preselect_multiband_amps[loop body, one band]', loop=0,
+         loop_returns=['_selected_type_varieties'], props=['C10'], use_at_calls=False, overrides=OV_MB, spec=SPEC_NET,
+         params={'band': const('C'), 'amp': AMPN, 'uid': string(), 'prev_node': obj('Fiber'), 'next_node': obj('Fiber'), 'power_mode': boolean(),
+                 'prev_voa': dct_k({'C': real()}), 'prev_dp': dct_k({'C': real()}), 'pref_total_db': dct_k({'C': real()}),
+                 'network': obj('<ns>'), 'restrictions': const(['group']), '_design_bands': dct_k({'C': dct(f_min=real(), f_max=real())}),
+                 'deviation_db': dct_k({'C': real()}), 'tilt_target': dct_k({'C': real()}), '_selected_type_varieties': const(['group']),
+                 'target_extended_gain': real(),
+                 'equipment': dct(Edfa=_MBLIB, Span=dct(default=SPAN), ghost_call=dct())},
+         requires=[('step', "round(equipment['Span']['default'].delta_power_range_db[2], 1) >= 0.01"),
+                   ('range', "equipment['Span']['default'].delta_power_range_db[0] <= equipment['Span']['default'].delta_power_range_db[1]")],
+         let={'g': "compute_gain_power_and_tilt_target(amp, prev_node, next_node, power_mode, prev_voa['C'], prev_dp['C'], pref_total_db['C'], "
+                   "network, equipment, deviation_db['C'], tilt_target['C'])", 'asked': "equipment['ghost_call']"},
+         ensures=[('rated_against_this_bands_targets', "asked['gain_target'] == g[0] and asked['power_target'] == g[1] and asked['tilt_target'] == g[2]"),
+                  ('with_the_librarys_extended_gain_allowance', "asked['target_extended_gain'] == target_extended_gain"),
+                  ('for_this_amplifier', "asked['uid'] == uid")],
+         modifies=["equipment['ghost_call'][*]"])
+
+# ---------------------------------------------------------------- head of a line: what the first amplifier is told about the power
+# entering the line (real body of the per-band initialisation loop of set_egress_amplifier)
+_HEAD = dict(node=obj('Fiber', uid=string()), band_name=const('C'), band=dct(f_min=real(), f_max=real(), spacing=real()),
+             pref_ch_db=real(), reference_channel=obj('<ns>', nb_channel=integer(1)), network=obj('<ns>'),
+             dp=dct(), prev_dp=dct(), voa=dct(), prev_voa=dct(), pref_total_db=dct())
+contract('gnpy.core.network.set_egress_amplifier', name='gnpy.core.network.set_egress_amplifier[line head at a transceiver]', loop=1,
+         loop_returns=['prev_dp', 'dp', 'prev_voa', 'voa', 'pref_total_db'], props=['C09'], use_at_calls=False,
+         params=dict(_HEAD, this_node=obj('Transceiver', uid=string()),
+                     equipment=dct(SI=dct(default=obj('<ns>', tx_power_dbm=opt(real()), power_dbm=real())))),
+         let={'si': "equipment['SI']['default']"},
+         # the line starts at the transmitter's own launch power when one is configured, else at the reference power
+         ensures=[('offset_of_the_launch_power', "implies(si.tx_power_dbm is not None, prev_dp['C'] == si.tx_power_dbm - pref_ch_db) and "
+                                                 "implies(si.tx_power_dbm is None, prev_dp['C'] == 0)"),
+                  ('first_target_is_that_offset', "dp['C'] == prev_dp['C'] and voa['C'] == 0 and prev_voa['C'] == 0"),
+                  ('design_load', "pref_total_db['C'] == pref_ch_db + spec_lin2db(reference_channel.nb_channel)")],
+         modifies=['dp[*]', 'prev_dp[*]', 'voa[*]', 'prev_voa[*]', 'pref_total_db[*]'])
+contract('gnpy.core.network.set_egress_amplifier', name='gnpy.core.network.set_egress_amplifier[line head at a ROADM]', loop=1,
+         loop_returns=['prev_dp', 'dp', 'prev_voa', 'voa', 'pref_total_db'], props=['C09', 'C06'], use_at_calls=False,
+         params=dict(_HEAD, this_node=obj('Roadm', uid=string(), per_degree_pch_out_dbm=sdict(), per_degree_pch_psd=const({}), per_degree_pch_psw=const({}),
+                                         ref_carrier=obj('<ns>', baud_rate=real(), slot_width=real())),
+                     equipment=dct(SI=dct(default=obj('<ns>', tx_power_dbm=opt(real()), power_dbm=real())))),
+         requires=[('degree_has_a_power_target', 'node.uid in this_node.per_degree_pch_out_dbm')],
+         ensures=[('offset_of_the_degree_target', "prev_dp['C'] == this_node.per_degree_pch_out_dbm[node.uid] - pref_ch_db and dp['C'] == prev_dp['C']")],
+         modifies=['dp[*]', 'prev_dp[*]', 'voa[*]', 'prev_voa[*]', 'pref_total_db[*]'])
